@@ -6,6 +6,9 @@ import OrsoVerif.Drv.C05
 import OrsoVerif.Drv.C06
 import OrsoVerif.Drv.C09
 import OrsoVerif.Drv.C10
+import OrsoVerif.Drv.C12
+import OrsoVerif.Drv.C17
+import OrsoVerif.Drv.C18
 
 open Wire
 
@@ -18,6 +21,9 @@ def dispatch (prop op : String) (args : List PyVal) : Option (List PyVal) :=
   | "C06" => Drv.C06.handle op args
   | "C09" => Drv.C09.handle op args
   | "C10" => Drv.C10.handle op args
+  | "C12" => Drv.C12.handle op args
+  | "C17" => Drv.C17.handle op args
+  | "C18" => Drv.C18.handle op args
   | _ => none
 
 def handle (toks : List String) : String :=
